@@ -1,8 +1,12 @@
 """C09 — Non-mutating APIs leave their arguments untouched and copies are independent (DESIGN.md §4 C09).
 
-translate : (LEAN-STAGES, filled by the integrator)
-prove     : (LEAN-STAGES)
-correspond: (LEAN-STAGES)
+translate : the copy defaults the property rests on (ast): Generator.generate(copy=True) copies before printing,
+            Expression.sql(copy=True), transform copies when copy, optimize() -> maybe_parse(copy=True), __deepcopy__
+            carries `_hash` over before the arg loop  -> Generated/C09.lean (discharged by `generated_copy_defaults_ok`)
+prove     : Properties/C09.lean over Model/Tree.lean: footprints of set/append/replace/pop, hash/== touch only caches,
+            the frame theorem for regions, copy writes only fresh cells
+correspond: histories "build, copy, then edit ONE side" on real Expression objects and on the Lean model (per-cell dumps
+            after every op must agree); on the real side every cell of the other tree must stay byte-identical
 search    : the property's own oracle on the REAL code
             * `fingerprint(tree)`: pre-order dump over an own arg walk (class, args, parent, arg_key, index, comments,
               _type, _meta) + `.sql()` + `repr()`; everything except `_hash` (hash caches may be filled by read-only calls)
@@ -36,8 +40,13 @@ if REPO not in sys.path:
 import sqlglot  # noqa: E402
 from sqlglot import exp  # noqa: E402
 
-MODULES: list = []   # LEAN-STAGES: filled by the integrator
-THEOREMS: list = []  # LEAN-STAGES: filled by the integrator
+MODULES = ["Model.Tree", "Proofs.Tree", "Proofs.TreeFrame", "Generated.C09", "Properties.C09"]
+_P = "SqlglotModel.Properties.C09."
+THEOREMS = [_P + n for n in (
+    "set_frame", "append_frame", "replace_frame", "hash_touches_only_caches", "eq_touches_only_caches",
+    "frame_set", "frame_append", "frame_replace", "frame_pop", "copy_original_untouched",
+    "copy_equal_disjoint_partial", "generated_copy_defaults_ok",
+)]
 
 Expr = exp.Expr
 SG_DIR = os.path.dirname(os.path.abspath(sqlglot.__file__))
@@ -759,12 +768,173 @@ def search(chk: Check, hints: list, budget_s: float) -> None:
 
 
 # ------------------------------------------------------------------------------------------ run / replay
+
+# ================================================================================================ LEAN STAGES
+import ast as _ast
+
+
+def _fn(tree, cls, name):
+    for c in tree.body:
+        if cls is None and isinstance(c, _ast.FunctionDef) and c.name == name:
+            return c
+        if isinstance(c, _ast.ClassDef) and c.name == cls:
+            for f in c.body:
+                if isinstance(f, _ast.FunctionDef) and f.name == name:
+                    return f
+    return None
+
+
+def _default_of(fn, arg):
+    if fn is None:
+        return None
+    a = fn.args
+    pos = a.posonlyargs + a.args
+    for name, d in zip(reversed(pos), reversed(a.defaults)):
+        if name.arg == arg:
+            return d.value if isinstance(d, _ast.Constant) else "?"
+    for name, d in zip(a.kwonlyargs, a.kw_defaults):
+        if name.arg == arg and d is not None:
+            return d.value if isinstance(d, _ast.Constant) else "?"
+    return None
+
+
+def translate(chk: Check) -> str:
+    def parse(rel):
+        return _ast.parse(open(os.path.join(REPO, *rel.split("/")), encoding="utf-8").read())
+
+    core = parse("sqlglot/expressions/core.py")
+    gen = parse("sqlglot/generator.py")
+    opt = parse("sqlglot/optimizer/optimizer.py")
+    g = _fn(gen, "Generator", "generate")
+    gsrc = _ast.unparse(g) if g else ""
+    tr = _fn(core, "Expression", "transform")
+    dc = _fn(core, "Expression", "__deepcopy__")
+    dsrc = _ast.unparse(dc) if dc else ""
+    o = _fn(opt, None, "optimize")
+    osrc = _ast.unparse(o) if o else ""
+    facts = {
+        "generateCopiesByDefault": _default_of(g, "copy") is True and "expression.copy()" in gsrc and "if copy" in gsrc,
+        "sqlCopiesByDefault": _default_of(_fn(core, "Expression", "sql"), "copy") is True,
+        "transformCopiesWhenAsked": tr is not None and _default_of(tr, "copy") is True and "self.copy() if copy else self" in _ast.unparse(tr),
+        "optimizeCopiesInput": "maybe_parse(" in osrc and "copy=True" in osrc,
+        "deepcopyCarriesHashBeforeArgs": "copy._hash = node._hash" in dsrc and dsrc.find("copy._hash = node._hash") < dsrc.find("node.args.items()"),
+    }
+    for k, v in facts.items():
+        if not v:
+            chk.broken.append({"kind": "translator", "what": f"C09 translator: structure changed: {k} no longer recognised"})
+    lines = ["-- GENERATED by vf/props/c09.py from sqlglot/{generator,expressions/core,optimizer/optimizer}.py. Do not edit.",
+             "import SqlglotModel.Model.Tree", "namespace SqlglotModel.Generated.C09"]
+    for k, v in facts.items():
+        lines.append(f"def {k} : Bool := {'true' if v else 'false'}")
+    lines.append("end SqlglotModel.Generated.C09")
+    return "\n".join(lines) + "\n"
+
+
+def correspond(chk: Check) -> list:
+    """build / copy / edit-one-side histories: model == implementation on every cell, and (real side, the property itself)
+    no cell of the untouched side changes. Returns hint cases for the search (none: violations are reported here)."""
+    rng = chk.rng
+    n_hist = chk.pick(150, 1500)
+    lines, expect, where, hists = [], [], [], []
+    for hi in range(n_hist):
+        ops = c08.random_history(rng, chk.pick(10, 20), wild=0.0)
+        real = c08.RealHeap()
+        outs = []
+        ok = True
+        for op in ops:
+            r = real.apply(op)
+            outs.append(r + "|" + ("" if r == "fail" else real.dump()))
+            if r == "fail":
+                ok = False
+                break
+        if ok:
+            st = real.stored_ids()
+            roots = [i for i, o in enumerate(real.reg) if id(o) not in st and o.args]
+            if roots:
+                src = rng.choice(roots)
+                base = len(real.reg)
+                op = {"op": "copy", "n": src}
+                r = real.apply(op)
+                ops.append(op); outs.append(r + "|" + real.dump())
+                top = len(real.reg)
+                edit_copy = rng.random() < 0.6      # edit the copy (ids >= base) or the original side (ids < base)
+                lo, hi_ = (base, top) if edit_copy else (0, base)
+                keep = range(0, base) if edit_copy else range(base, top)
+                snap = real.dump().split(" ")
+                for _ in range(rng.randint(2, 10)):
+                    side = [i for i in range(lo, hi_)] + list(range(top, len(real.reg)))
+                    tgt = rng.choice(side)
+                    o = real.reg[tgt]
+                    r0 = rng.random()
+                    if r0 < 0.25:
+                        e = {"op": "hash", "n": tgt}
+                    elif r0 < 0.45:
+                        e = c08._set(tgt, rng.choice(list(o.args.keys()) + ["this"]), rng.choice([None, {"s": "zz"}, {"s": True}]))
+                    elif r0 < 0.6:
+                        e = {"op": "pop", "n": tgt}
+                    elif r0 < 0.7:
+                        e = {"op": "eq", "a": tgt, "b": rng.choice(side)}
+                    else:
+                        n = len(real.reg)
+                        for pre in (c08._mk("literal", n), c08._set(n, "this", {"s": "7"}), c08._set(n, "is_string", {"s": False})):
+                            rr = real.apply(pre); ops.append(pre); outs.append(rr + "|" + real.dump())
+                        lists = [k for k, v in o.args.items() if type(v) is list]
+                        if lists and rng.random() < 0.5:
+                            k = rng.choice(lists)
+                            e = c08._set(tgt, k, {"n": n}, rng.randint(0, len(o.args[k])), rng.random() < 0.5)
+                        elif rng.random() < 0.5:
+                            e = {"op": "replace", "n": tgt, "v": {"n": n}}
+                        else:
+                            e = {"op": "append", "n": tgt, "k": "expressions", "it": {"n": n}}
+                    r = real.apply(e)
+                    ops.append(e)
+                    if r == "fail":
+                        outs.append("fail|")
+                        break
+                    d = real.dump()
+                    outs.append(r + "|" + d)
+                    cells = d.split(" ")
+                    changed = [i for i in keep if cells[i] != snap[i]]
+                    chk.count("frame-op:" + c08._opkey(e))
+                    if changed:
+                        chk.report_violation("copy-frame:" + c08._opkey(e) + ("|edit-copy" if edit_copy else "|edit-original"),
+                                             f"editing the {'copy' if edit_copy else 'original'} changed a cell of the other tree: "
+                                             f"{snap[changed[0]]} -> {cells[changed[0]]}", {"kind": "model-history", "ops": ops})
+                        break
+        hists.append(ops)
+        lines.append('{"op":"reset"}'); expect.append("ok|"); where.append((hi, -1))
+        for oi, (op, out) in enumerate(zip(ops, outs)):
+            lines.append(json.dumps(op)); expect.append(out); where.append((hi, oi))
+        chk.case(("c09corr", ops), nontrivial=any(o["op"] == "copy" for o in ops), sample={"ops": ops[-6:]} if hi % 397 == 0 else None)
+    chk.corr_cases += n_hist
+    got = chk.driver("C08", lines)
+    seen = set()
+    for g, e, (hi, oi) in zip(got, expect, where):
+        if g != e and hi not in seen:
+            seen.add(hi)
+            chk.correspondence_broken("copy/edit history", {"ops": hists[hi][: oi + 1], "model": g[:300], "impl": e[:300]})
+    return []
+
+
 def run(chk: Check) -> None:
-    # LEAN-STAGES (integrator): chk.trusted.append(...); chk.assumptions += [...]
-    # LEAN-STAGES (integrator): chk.write_generated(translate(chk))
-    # LEAN-STAGES (integrator): proved = chk.prove(MODULES, "Properties.C09", THEOREMS)
+    chk.trusted.append("C09: the model Model/Tree.lean (shared with C08) of the Expression primitives; the generator / optimizer / diff / "
+                       "lineage code is NOT modelled: the frame theorem is parametric in a callee that applies only these primitives inside "
+                       "the copy's region, and the harness-side write monitor checks that premise on the real code")
+    chk.assumptions += [
+        "a region (Region h R) is closed under parent pointers and stored children; that the cells allocated by copy() form such a "
+        "region is tied by correspondence (per-cell dumps), not proved",
+        "instrumentation is harness-side monkeypatching of Expression.set/append/replace/pop/_set_parent; direct attribute writes are "
+        "caught by the before/after fingerprint only",
+    ]
+    chk.write_generated(translate(chk))
+    proved = chk.prove(MODULES, "Properties.C09", THEOREMS)
     hints: list = []
-    # LEAN-STAGES (integrator): hints = correspond(chk)
+    try:
+        hints = correspond(chk)
+    except HarnessError as e:
+        if proved:
+            raise
+        chk.note(f"model driver unavailable ({e}); continuing with the search on the real code")
     budget = chk.pick(30, 300)
     if chk.broken:
         budget *= 2
